@@ -351,6 +351,7 @@ fn cli_sample(rt: &Runtime, rep: &mut StageReport) -> Vec<(serde_json::Value, St
                 vec!["distance", dname, "-o", "out_dist"],
                 vec!["merge", dname, "good.skf", "-o", "out_m1"],
                 vec!["merge", "good.skf", dname, "-o", "out_m2"],
+                vec!["merge", dname, "-o", "out_m0"],
                 // one damaged file among three inputs, in the middle or at the end
                 if attempts % 2 == 0 { vec!["merge", "good.skf", dname, "good2.skf", "-o", "out_m3"] } else { vec!["merge", "good.skf", "good2.skf", dname, "-o", "out_m3"] },
                 vec!["delete", "-s", dname, "-o", "out_del", "smp0"],
@@ -373,7 +374,7 @@ fn cli_sample(rt: &Runtime, rep: &mut StageReport) -> Vec<(serde_json::Value, St
                     problem = Some("exit status 0".to_string());
                 } else if std::fs::read(&p).ok().as_deref() != Some(&data[..]) {
                     problem = Some("the damaged input file was modified".to_string());
-                } else if let Some(x) = ["out_aln", "out_map", "out_dist", "out_m1.skf", "out_m2.skf", "out_m3.skf", "out_del.skf", "out_weed.skf", "out_lo_snps.fas", "out_lo_indels.vcf"].iter().find(|x| {
+                } else if let Some(x) = ["out_aln", "out_map", "out_dist", "out_m0.skf", "out_m1.skf", "out_m2.skf", "out_m3.skf", "out_del.skf", "out_weed.skf", "out_lo_snps.fas", "out_lo_indels.vcf"].iter().find(|x| {
                     let q = dir.join(x);
                     q.exists() && std::fs::metadata(&q).map(|m| m.len() > 0).unwrap_or(false)
                 }) {
@@ -384,12 +385,12 @@ fn cli_sample(rt: &Runtime, rep: &mut StageReport) -> Vec<(serde_json::Value, St
                         viol.push((json!({"file": f.name, "fault": format!("{fault:?}"), "cmd": cmd}), format!("ska {} on {} damaged by {fault:?}: {pr}", cmd.join(" "), f.name)));
                     }
                 }
-                for x in ["out_aln", "out_map", "out_dist", "out_m1.skf", "out_m2.skf", "out_m3.skf"] {
+                for x in ["out_aln", "out_map", "out_dist", "out_m0.skf", "out_m1.skf", "out_m2.skf", "out_m3.skf"] {
                     let _ = std::fs::remove_file(dir.join(x));
                 }
             }
             rep.nontrivial_keys.insert(key_of(&(f.name, format!("{fault:?}"))));
-            rep.class(&format!("{}:damaged_files_through_10_subcommands", f.name), 1);
+            rep.class(&format!("{}:damaged_files_through_11_subcommands", f.name), 1);
             done += 1;
             ctx.done(&dir);
         }
